@@ -39,13 +39,20 @@ def path_sig(facts, fn, st, value):
     return ",".join(parts) + ":ret=" + rv
 
 
-STACK_EXCEPTIONS = {
-    ("generate_assign", "left=Tmp,right=Absolute|AbsoluteX|AbsoluteY|Tmp:ret=Tmp"):
-        "only generate_condition_16bits passes a Tmp destination; when A is in use there, its next step (assignment to A) is rejected with 'Code too complex', so no function is emitted from such a path",
-}
+STACK_EXCEPTIONS = [
+    ("generate_assign", re.compile(r"^left=Tmp,.*:ret=Tmp$"),
+     "a Tmp destination is only ever passed by generate_condition_16bits (literal ExprType::Tmp); when A is in use there, its next step (assignment to A) is rejected with 'Code too complex', so no function is emitted from such a path"),
+]
 
 
-@rule("T-STACK-PAIR", floor=20,
+def stack_exception(fname, sig):
+    for f, rx, why in STACK_EXCEPTIONS:
+        if f == fname and rx.match(sig):
+            return why
+    return None
+
+
+@rule("T-STACK-PAIR", floor=12,
       text="in every generator function, on every path that returns normally, the number of PHA instructions emitted equals the number of PLA instructions (guards on acc_in_use/tmp_in_use are correlated by path-wise constant propagation; callees are balanced by the same rule; error exits are exempt)")
 def t_stack_pair(facts, res, tier):
     seen = {}
@@ -83,8 +90,9 @@ def t_stack_pair(facts, res, tier):
                 if key not in seen:
                     seen[key] = True
                     res.inst(key, True, {"function": fn["name"], "pha": ph, "pla": pl, "path": sig})
-                    if (fn["name"], sig) in STACK_EXCEPTIONS:
-                        res.note("exception %s: %s" % (key, STACK_EXCEPTIONS[(fn["name"], sig)]))
+                    why = stack_exception(fn["name"], sig)
+                    if why:
+                        res.note("exception %s: %s" % (key, why))
                         continue
                     res.fail(key, facts.where(fn, first["node"]) if first else facts.where(fn),
                              "%s: a path (%s) that returns normally emits %d PHA and %d PLA: the hardware stack is left unbalanced and the function's RTS returns to a wrong address" % (fn["name"], sig, ph, pl))
@@ -297,7 +305,12 @@ def statement_generators(facts):
     return out
 
 
-@rule("T-FLAGS-DIRTY", floor=5,
+FLAGS_EXCEPTIONS = {
+    ("generate_assign", "*"): "the paths of generate_assign that load A (LDA/TXA/TYA) without assigning `flags` have an A or Tmp *destination*; such destinations are either literals passed by generate_return / generate_ternary / generate_condition_16bits (followed at once by RTS, a label or an assignment of flags) or the value of a non-lvalue left-hand side, which generate_assign rejects ('Code too complex') because the producer left acc_in_use / tmp_in_use set; the analysis cannot correlate the destination kind with those flags",
+}
+
+
+@rule("T-FLAGS-DIRTY", floor=20,
       text="typestate of the generator's N/Z knowledge (`flags`): a consumer of that knowledge (flags_ok, which lets a condition skip its load/compare) is never reached while `flags` still holds a specific value assigned before a later N/Z-changing instruction or opaque asm line. Propagated through every generator function with callee summaries specialised by the operand kinds passed, to a fixpoint, within one statement and from the end of one statement into the next")
 def t_flags_dirty(facts, res, tier):
     evaluate, eparams, allv, memo, consumed, site_nodes = flags_summaries(facts)
@@ -319,9 +332,16 @@ def t_flags_dirty(facts, res, tier):
         if (sfn, what) == ENTRY:
             continue
         within.setdefault((sfn, cfn), set()).add(what)
+    for (fname, entry, ads), outs2 in sorted(memo.items(), key=lambda kv: (kv[0][0], kv[0][1], str(kv[0][2]))):
+        if entry == "K":
+            res.inst("T-FLAGS-DIRTY:summary:%s:%s" % (fname, "/".join("|".join(sorted(a)) if len(a) < len(allv) else "*" for a in ads)), True,
+                     {"function": fname, "exits": sorted({o for o, _ in outs2})})
     for (sfn, cfn), whats in sorted(within.items()):
         key = "T-FLAGS-DIRTY:%s->%s" % (sfn, cfn)
         res.inst(key, True, {"dirtying": sorted(whats)})
+        if (sfn, cfn) in FLAGS_EXCEPTIONS or (sfn, "*") in FLAGS_EXCEPTIONS:
+            res.note("exception %s: %s" % (key, FLAGS_EXCEPTIONS.get((sfn, cfn)) or FLAGS_EXCEPTIONS[(sfn, "*")]))
+            continue
         node = site_nodes.get((sfn, sorted(whats)[0]))
         res.fail(key, facts.where(facts.fn(sfn, GEN_QUAL), node["node"] if node else None), "%s emits %s without updating `flags`, and %s can then consult flags_ok in the same statement: the condition may skip its load/compare and branch on those flags" % (sfn, "/".join(sorted(whats)), cfn))
     # (b) a statement ends dirty and the next statement's condition consumes
@@ -334,6 +354,9 @@ def t_flags_dirty(facts, res, tier):
         for sfn, whats in sorted(byfn.items()):
             key = "T-FLAGS-DIRTY:%s->next-statement" % sfn
             res.inst(key, True, {"dirtying": sorted(whats)})
+            if (sfn, "next-statement") in FLAGS_EXCEPTIONS or (sfn, "*") in FLAGS_EXCEPTIONS:
+                res.note("exception %s: %s" % (key, FLAGS_EXCEPTIONS.get((sfn, "next-statement")) or FLAGS_EXCEPTIONS[(sfn, "*")]))
+                continue
             node = site_nodes.get((sfn, sorted(whats)[0]))
             res.fail(key, facts.where(facts.fn(sfn, GEN_QUAL), node["node"] if node else None), "a statement can end in %s right after %s changed N/Z while `flags` still describes an earlier value; the next statement's condition (%s) consults flags_ok before reloading" % (sfn, "/".join(sorted(whats)), ", ".join(next_consumers)))
     res.note("%d (function, entry state, operand kinds) summaries computed; %d (dirtying site, consumer) pairs" % (len(memo), len(consumed)))
